@@ -15,6 +15,8 @@ pub struct SCase {
     pub ordered: bool,
     /// C15: index of the case this one is the alpha-renamed twin of
     pub twin_of: Option<usize>,
+    /// print the renamed binders (indices beyond the fixed name table) with a leading underscore
+    pub underscore: bool,
 }
 
 // ---------------------------------------------------------------------------------------------
@@ -325,7 +327,7 @@ pub fn c13_cases(quick: bool) -> Vec<SCase> {
                 }
                 let mut body = setup.clone();
                 body.push(G::Match(kind, subj.clone(), vec![(vec![p.clone()], b.clone())]));
-                out.push(SCase { program: Program { nq: 2, body }, as_query: count % 7 == 0, take: 50, ordered: false, twin_of: None });
+                out.push(SCase { program: Program { nq: 2, body }, as_query: count % 7 == 0, take: 50, ordered: false, twin_of: None, underscore: false });
             }
         }
     }
@@ -345,7 +347,7 @@ pub fn c13_cases(quick: bool) -> Vec<SCase> {
             for st in &subj_terms {
                 for kind in kinds {
                     let m = G::Match(kind, st.clone(), vec![(alts.clone(), vec![G::Eq(r(), T::list(vec![q()]))]), (vec![T::W], vec![G::Eq(r(), T::I(0))])]);
-                    out.push(SCase { program: Program { nq: 2, body: vec![m] }, as_query: false, take: 50, ordered: false, twin_of: None });
+                    out.push(SCase { program: Program { nq: 2, body: vec![m] }, as_query: false, take: 50, ordered: false, twin_of: None, underscore: false });
                 }
             }
         }
@@ -361,9 +363,9 @@ pub fn c13_cases(quick: bool) -> Vec<SCase> {
                 for b in &bodies {
                     for kind in kinds {
                         let arms = vec![(fp.clone(), b.clone()), (vec![T::W], vec![G::Eq(r(), T::I(0))])];
-                        out.push(SCase { program: Program { nq: 2, body: vec![G::Match(kind, st.clone(), arms)] }, as_query: false, take: 50, ordered: false, twin_of: None });
+                        out.push(SCase { program: Program { nq: 2, body: vec![G::Match(kind, st.clone(), arms)] }, as_query: false, take: 50, ordered: false, twin_of: None, underscore: false });
                         let arms3 = vec![(vec![T::I(9)], vec![G::Eq(r(), T::I(9))]), (fp.clone(), b.clone()), (vec![T::W], vec![G::Eq(r(), T::I(0))])];
-                        out.push(SCase { program: Program { nq: 2, body: vec![G::Match(kind, st.clone(), arms3)] }, as_query: false, take: 50, ordered: false, twin_of: None });
+                        out.push(SCase { program: Program { nq: 2, body: vec![G::Match(kind, st.clone(), arms3)] }, as_query: false, take: 50, ordered: false, twin_of: None, underscore: false });
                     }
                 }
             }
@@ -395,7 +397,7 @@ pub fn c13_cases(quick: bool) -> Vec<SCase> {
                         continue;
                     }
                     body.push(G::Match(kind, subj.clone(), arms.clone()));
-                    out.push(SCase { program: Program { nq: 2, body }, as_query: false, take: 50, ordered: false, twin_of: None });
+                    out.push(SCase { program: Program { nq: 2, body }, as_query: false, take: 50, ordered: false, twin_of: None, underscore: false });
                 }
             }
         }
@@ -466,7 +468,7 @@ pub fn c14_cases(quick: bool) -> Vec<SCase> {
     let mut count = 0usize;
     let mut push = |out: &mut Vec<SCase>, body: Vec<G>, nq: u32, take: usize, ordered: bool| {
         count += 1;
-        out.push(SCase { program: Program { nq, body }, as_query: count % 5 == 0, take, ordered, twin_of: None });
+        out.push(SCase { program: Program { nq, body }, as_query: count % 5 == 0, take, ordered, twin_of: None, underscore: false });
     };
     // (1) every term on either side of == and != and as relation / user-relation argument
     for t in &terms {
@@ -533,7 +535,7 @@ pub fn c14_cases(quick: bool) -> Vec<SCase> {
     // (4) query-variable order: 1..3 query variables, each bound to a distinct value
     for nq in 1..=3u32 {
         let body: Vec<G> = (0..nq).rev().map(|i| G::Eq(T::V(i), T::I(10 + i as i64))).collect();
-        out.push(SCase { program: Program { nq, body }, as_query: true, take: 5, ordered: false, twin_of: None });
+        out.push(SCase { program: Program { nq, body }, as_query: true, take: 5, ordered: false, twin_of: None, underscore: false });
     }
     out
 }
@@ -657,8 +659,10 @@ pub fn c15_cases(quick: bool) -> Vec<SCase> {
         let p = Program { nq: 2, body: b };
         let renamed = alpha_rename(&p);
         let idx = out.len();
-        out.push(SCase { program: p, as_query: i % 6 == 0, take: 50, ordered: false, twin_of: None });
-        out.push(SCase { program: renamed, as_query: i % 6 == 0, take: 50, ordered: false, twin_of: Some(idx) });
+        out.push(SCase { program: p, as_query: i % 6 == 0, take: 50, ordered: false, twin_of: None, underscore: false });
+        out.push(SCase { program: renamed.clone(), as_query: i % 6 == 0, take: 50, ordered: false, twin_of: Some(idx), underscore: false });
+        // the same twin with underscore-prefixed binder names (`_v7`): a name is only a name
+        out.push(SCase { program: renamed, as_query: i % 6 == 0, take: 50, ordered: false, twin_of: Some(idx), underscore: true });
     }
     out
 }
@@ -704,6 +708,7 @@ pub fn generate(id: &str, quick: bool, dir: &str) -> std::io::Result<usize> {
             let nested = i % 3 == 1;
             let prev = NESTED_TAILS.with(|n| n.replace(nested));
             ALT_FORMS.with(|a| a.set(id == "C14" && i % 4 == 2));
+            crate::ast::UNDERSCORE_NAMES.with(|u| u.set(c.underscore));
             ALT_COUNTER.with(|c| c.set(i / 4));
             let names: Vec<String> = (0..c.program.nq).map(var_name).collect();
             if c.as_query {
@@ -724,6 +729,7 @@ pub fn generate(id: &str, quick: bool, dir: &str) -> std::io::Result<usize> {
             }
             NESTED_TAILS.with(|n| n.set(prev));
             ALT_FORMS.with(|a| a.set(false));
+            crate::ast::UNDERSCORE_NAMES.with(|u| u.set(false));
             f.push('\n');
             line += f.lines().count();
             writeln!(index, "{}\t{}\t{}\t{}", m, start, line - 1, i).unwrap();
